@@ -437,7 +437,7 @@ Print Assumptions C07_parser_block_types_nonempty.
 
 (* walker_returns for the instance: on every syntax tree of the parser the walker returns a file or positioned
    errors, or says "outside the model" (maps of containers, non-ASCII map keys, > 300-rune float literals, a oneof
-   with two members set, the EntityObject name pattern: model/CmpbWalk.v header) *)
+   with two members set: model/CmpbWalk.v header) *)
 Theorem C07_walker_returns : forall mkR body, body_refs_ok body = true ->
   (exists w, j5s_walk_gen mkR body = Ok w) \/ j5s_walk_gen mkR body = Err E_UNMODELLED.
 Proof. exact j5s_walk_gen_returns. Qed.
